@@ -136,7 +136,7 @@ pub async fn run_crash(cfg: RunCfg) -> RunResult {
                 }
                 match scan_sorted(&ds).await {
                     Ok(rows) if rows == post_sorted => {}
-                    Ok(rows) => r.res.violate("C01", "fault-free-write", &format!("post-state:{}", op.kind()), prefix, format!("{}: {}", op.brief(), diff_rows(&post.rows, &rows))),
+                    Ok(rows) => r.res.violate("C01", "fault-free-write", &format!("post-state:{}{}", crate::e1::op_sig_kind(&op, &pre), r.history_tags(&op, &[])), prefix, format!("{}: {}", op.brief(), diff_rows(&post.rows, &rows))),
                     Err(e) => r.res.violate("C01", "fault-free-write", "post-scan-error", prefix, e),
                 }
             }
